@@ -90,6 +90,8 @@ def desc_lines(desc, method_obj=None):
         L.append("grid geometric %s %d %s" % (R(Fraction(growth)), 1 if g.get('local') else 0, R(Fraction(geff))))
     elif g['kind'] == 'data':
         L.append("grid data " + rats(Fraction(float(v)) for v in g['nz']))
+    elif g['kind'] in ('density_poly', 'dense_edges'):
+        L.append("grid data " + rats(Fraction(float(v)) for v in g['nz_runtime']))
     gmin = Fraction(float(g.get('min', 0)))
     gmax = "inf" if 'max' not in g else R(Fraction(float(g['max'])))
     default = 1 if (float(g.get('min', 0)) == 0 and 'max' not in g) else 0
